@@ -295,7 +295,6 @@ End Probe.
 (* ================= the table invariant ================= *)
 Section Table.
 Variable h : list Z -> N.
-Variable comb : Z -> Z -> Z.
 
 (* shape and searchability (everything except the len field) for capacity 2^k:
    every occupied slot is where the probe sequence of its key finds it *)
@@ -465,7 +464,9 @@ Lemma added_spec t1 k :
   wf_tab t1 k -> clen t1 + 1 = Z.of_nat (count (chits t1)) -> clen t1 < Z.of_nat (ccap t1) ->
   match added h t1 with
   | Ok t' => wf t' /\ (forall x, In x (abs t') <-> In x (abs t1)) /\
-             cscratch t' = cscratch t1 /\ cnk t' = cnk t1
+             cscratch t' = cscratch t1 /\ cnk t' = cnk t1 /\ clen t' = clen t1 + 1 /\
+             (ccap t' = ccap t1 \/
+              (ccap t' = (ccap t1 * 2)%nat /\ Z.of_nat (ccap t1) <> hash_max_capacity))
   | Panic => Z.of_nat (ccap t1) = hash_max_capacity /\ cthreshold t1 < clen t1 + 1
   | OutOfFuel => False
   end.
@@ -473,7 +474,7 @@ Proof.
   intros W L Rm. unfold added. cbn [clen cthreshold ccap cnk cscratch cslots chits with_len].
   pose proof (pow2_pos k) as Pk. pose proof (wt_cap _ _ W) as C.
   destruct (Z.leb_spec (clen t1 + 1) (cthreshold t1)) as [Le|Gt].
-  - split; [|split; [tauto | auto]]. constructor; cbn [clen ccap chits with_len]; auto.
+  - split; [|split; [tauto | repeat split; auto]]. constructor; cbn [clen ccap chits with_len]; auto.
     + exists k. destruct W. constructor; auto.
     + rewrite (wt_thr _ _ W) in Le. pose proof (threshold_lt (ccap t1)). lia.
   - destruct (Z.eqb_spec (Z.of_nat (ccap t1)) hash_max_capacity) as [Mx|NMx]; [auto|].
@@ -488,7 +489,8 @@ Proof.
     + apply (abs_keys_nodup t1 k W).
     + intros x _. unfold abs, t3; cbn [cslots chits]. rewrite occ_rows_repeat0. auto.
     + apply combine_snd_nonneg, (wt_pos _ _ W).
-    + rewrite E'. split; [|split; [|auto]].
+    + rewrite E'. split; [|split; [|split; [exact S' | split; [exact K' | split;
+        [rewrite L'; reflexivity | right; split; [rewrite Cp'; reflexivity | rewrite <- C; exact NMx]]]]]].
       * constructor; eauto.
         -- rewrite L', C'. unfold t3; cbn [clen chits]. rewrite count_repeat. simpl plus.
            rewrite occ_rows_length by (rewrite (wt_slots _ _ W), (wt_hits _ _ W); reflexivity). exact L.
@@ -498,13 +500,18 @@ Proof.
 Qed.
 
 (* ---- one row ---- *)
+Variable comb : Z -> Z -> Z.
+
 Definition new_val (t : cframe) (r : list Z * Z) : Z :=
   match lookup (fst r) (abs t) with Some o => comb o (snd r) | None => snd r end.
 
 Lemma insert_row_spec t r : wf t ->
   match insert_row h comb t r with
   | Ok t' => wf t' /\ cscratch t' = cscratch t /\ cnk t' = cnk t /\
-             (forall x, In x (abs t') <-> x = (fst r, new_val t r) \/ (In x (abs t) /\ fst x <> fst r))
+             (forall x, In x (abs t') <-> x = (fst r, new_val t r) \/ (In x (abs t) /\ fst x <> fst r)) /\
+             clen t' <= clen t + 1 /\
+             (ccap t' = ccap t \/
+              (ccap t' = (ccap t * 2)%nat /\ Z.of_nat (ccap t) <> hash_max_capacity))
   | Panic => Z.of_nat (ccap t) = hash_max_capacity /\ lookup (fst r) (abs t) = None
              /\ cthreshold t < clen t + 1
   | OutOfFuel => False
@@ -529,7 +536,8 @@ Proof.
     assert (L1 : clen t1 + 1 = Z.of_nat (count (chits t1))) by (rewrite C1; unfold t1; cbn [clen with_tab]; lia).
     specialize (AS L1 Rm).
     destruct (added h t1) as [t'| |]; auto.
-    + destruct AS as [W' [A' [S' K']]]. split; auto. split; auto. split; auto.
+    + destruct AS as [W' [A' [S' [K' [Ln Cp]]]]]. split; auto. split; auto. split; auto.
+      split; [|split; [unfold t1 in Ln; cbn [clen with_tab] in Ln; lia | exact Cp]].
       intro x. rewrite A', A1, Ab. destruct r as [key v]; simpl. split.
       * intros [->|H]; auto. right. split; auto. intro E. simpl in Ab.
         apply (proj1 (lookup_None _ _) Ab). rewrite <- E. now apply in_map.
@@ -561,7 +569,8 @@ Proof.
     { unfold t'; cbn [chits with_tab]. pose proof (count_upd _ _ _ (n + 1) H2) as Cu.
       replace (nzb n) with true in Cu by (symmetry; now apply nzb_true).
       replace (nzb (n + 1)) with true in Cu by (symmetry; apply nzb_true; lia). lia. }
-    split; [|split; [reflexivity | split; [reflexivity|]]].
+    split; [|split; [reflexivity | split; [reflexivity|
+      split; [|split; [unfold t'; cbn [clen with_tab]; lia | left; reflexivity]]]]].
     + constructor; [exists k | |].
       * destruct W as [C0 S0 Hh0 M0 T0 Pz F]. constructor; unfold t'; cbn [ccap cslots chits cmask cthreshold with_tab]; auto.
         -- now rewrite upd_length.
@@ -587,9 +596,8 @@ Proof.
         -- apply In_abs in Hx as [j [nj [G1 [G2 Nj]]]].
            assert (i <> j). { intros <-. apply Nx. congruence. }
            exists j, nj. rewrite !nth_error_upd_neq by auto. auto.
-  - exfalso. rewrite M, C in P. revert P. apply probe_no_panic; lia.
-  - exfalso. rewrite M, C in P. revert P. apply probe_no_fuel; try lia.
-    rewrite L, C in Rm. lia.
+  - exfalso. rewrite M, C in Hl. rewrite M, C in P. revert P. apply probe_no_panic; lia.
+  - exfalso. rewrite M, C in Hl. rewrite M, C in P. revert P. apply probe_no_fuel; lia.
 Qed.
 
 End Table.
